@@ -205,6 +205,71 @@ def ref_outcome(version, content):
 
 
 # ---------------------------------------------------------------------------
+class CwLock:
+    """Stand-in for a lock object of the cache modules while a world runs.  Simulated processes each
+    have their own (a lock is process-local); simulated threads of one process share it: a blocking
+    acquire of a lock held by another thread yields to that thread until it is free."""
+
+    def __init__(self, world, reentrant):
+        self.world = world
+        self.reentrant = reentrant
+        self.owners = {}                 # group -> [pid, count]
+
+    def _group(self):
+        return 'shared' if self.world.shared else self.world.cur
+
+    def acquire(self, blocking=True, timeout=-1):
+        w = self.world
+        me = w.cur
+        if me is None:
+            return True
+        g = self._group()
+        while True:
+            o = self.owners.get(g)
+            if o is None or (self.reentrant and o[0] == me):
+                self.owners[g] = [me, (o[1] if o else 0) + 1]
+                return True
+            if not blocking or timeout == 0:
+                return False
+            proc = w.procs[me]
+            w.count('lock.blocked')
+            if o[0] not in w.inflight:
+                raise HarnessError('lock owner %r is not a paused process' % (o[0],))
+            w._to_driver(proc, ('yield', ('resume', o[0])))
+            if proc.dead:
+                raise SimCrash()
+
+    __enter__ = acquire
+
+    def release(self):
+        g = self._group()
+        o = self.owners.get(g)
+        if o is None:
+            raise RuntimeError('release unlocked lock')
+        o[1] -= 1
+        if o[1] <= 0:
+            del self.owners[g]
+
+    def __exit__(self, *a):
+        self.release()
+
+    def locked(self):
+        return self._group() in self.owners
+
+
+def _install_cw_locks(world):
+    import _thread
+    import parso.file_io as pfio
+    import parso.grammar as pgr
+    found = []
+    for mod in (pc, pfio, pgr, pdiff):
+        for name, val in list(vars(mod).items()):
+            if isinstance(val, (_thread.LockType, _thread.RLock)):
+                found.append((mod, name, val))
+                setattr(mod, name, CwLock(world, isinstance(val, _thread.RLock)))
+    return found
+
+
 class Violation(Exception):
     def __init__(self, clause, sig, detail, op_index=None):
         super().__init__(clause, sig, detail)
@@ -373,6 +438,7 @@ class World:
         self._saved = (pc.time, pc._CACHED_SIZE_TRIGGER, pc._CACHED_FILE_MINIMUM_SURVIVAL,
                        pc._default_cache_path, pdiff.DEBUG_DIFF_PARSER, warnings.showwarning,
                        dict(pc.parser_cache))
+        self._real_locks = _install_cw_locks(self)
         pc.time = _Clock(self)
         pc._CACHED_SIZE_TRIGGER = cfg.get('size_trigger', 600)
         pc._CACHED_FILE_MINIMUM_SURVIVAL = cfg.get('min_survival', 600)
@@ -415,6 +481,8 @@ class World:
             p.thread.join(5)
         (pc.time, pc._CACHED_SIZE_TRIGGER, pc._CACHED_FILE_MINIMUM_SURVIVAL, pc._default_cache_path,
          pdiff.DEBUG_DIFF_PARSER, warnings.showwarning, saved_cache) = self._saved
+        for mod, name, lock in getattr(self, '_real_locks', []):
+            setattr(mod, name, lock)
         pc.parser_cache.clear()
         pc.parser_cache.update(saved_cache)
         warnings.filters[:] = self._wfilters
